@@ -118,6 +118,15 @@ func (p *Program) genFunc(c *Ctx, fn *ssa.Function, ct *Contract) {
 		v := c.freshVal(st, g, prm.Type(), "p."+prm.Name())
 		fr.params = append(fr.params, v)
 	}
+	// a function literal verified as a unit of its own ("func (*T).M$1"): its captured variables are arbitrary pointers
+	// to cells of the enclosing function; contracts name them as in the source and read them with deref()
+	c.unitFree = map[string]SVal{}
+	for _, fv := range fn.FreeVars {
+		v := c.freshVal(st, g, fv.Type(), "fv."+fv.Name())
+		fr.freeVars = append(fr.freeVars, v)
+		vv := v
+		c.unitFree[fv.Name()] = SVal{T: c.valTerm(v, fv.Name()), Type: fv.Type(), Val: &vv}
+	}
 	entry := st.clone()
 	c.inputs = c.describeInputs(fn, fr.params, entry)
 	sig := fn.Signature
